@@ -10,26 +10,35 @@ import (
 	"verif/xlate"
 )
 
-func TestProbe(t *testing.T) {
-	raw, _ := os.ReadFile(os.Getenv("PROBE"))
+// TestShow prints the translation of the queries in the file named by C04_SHOW (one per line; <NL>
+// stands for a newline). A debugging aid; does nothing in a check run.
+func TestShow(t *testing.T) {
+	file := os.Getenv("C04_SHOW")
+	if file == "" {
+		return
+	}
+	raw, err := os.ReadFile(file)
+	if err != nil {
+		t.Fatal(err)
+	}
 	for _, q := range strings.Split(string(raw), "\n") {
 		if strings.TrimSpace(q) == "" {
 			continue
 		}
 		q = strings.ReplaceAll(q, "<NL>", "\n")
-		fmt.Println("CYPHER:", q)
+		fmt.Printf("CYPHER: %s\n", q)
 		m, err := xlate.Parse(q)
 		if err != nil {
 			fmt.Println("  PARSE ERR:", err)
 			continue
 		}
-		res, err := xlate.Translate(m, map[string]any{"q": "it's", "l": []string{"a'b", "c"}, "a": []any{"x'", []any{"y"}}, "m": map[string]any{"k'": "v'"}})
+		res, err := xlate.Translate(m, map[string]any{"q": "it's", "l": []string{"a'b", "c"}})
 		if err != nil {
 			fmt.Println("  XLATE ERR:", strings.SplitN(err.Error(), "\n", 2)[0])
 			continue
 		}
 		fmt.Println("  SQL:", res.SQL)
-		keys := []string{}
+		var keys []string
 		for k := range res.Params {
 			keys = append(keys, k)
 		}
